@@ -1,12 +1,16 @@
 from excel2pycl.src.cell import Cell
 from excel2pycl.src.exceptions import E2PyclParserException
 from excel2pycl.src.tokens import EntryPointToken
+from excel2pycl.src.tokens.composite_base_token import CompositeBaseToken
 
 
 class AstBuilder:
     @classmethod
     def parse(cls, expression: list, in_cell: Cell):
+        # the memory of the parser belongs to one formula
+        CompositeBaseToken._FOUND.clear()
         token, unparsed_tokens = EntryPointToken.get(expression, in_cell)
+        CompositeBaseToken._FOUND.clear()
         if token is None or unparsed_tokens:
             raise E2PyclParserException(f'The formula of the cell {in_cell} is not parsed completely', unparsed_tokens)
 
